@@ -640,6 +640,7 @@ func (x *Exec) observe(w *respWriter) Value {
 		ri := x.renders[w.body[0].S]
 		okT := ri.tmpl.pkg == "html/template" && ri.tmpl.text != nil && ri.tmpl.text.IsConst()
 		var action, relay, resp string
+		okTerm := TrueT
 		if ri.tmpl.text != nil && ri.tmpl.text.IsConst() {
 			var shapeOK bool
 			action, relay, resp, shapeOK = templateShape(ri.tmpl.text.S)
@@ -664,10 +665,24 @@ func (x *Exec) observe(w *respWriter) Value {
 			}
 			ft := dt.Underlying().(*types.Struct).Field(i).Type()
 			if !isPlainString(ft) {
-				okT = false // a bypass type (template.HTML, template.URL ...) or a non-string reaches the sink
+				// a bypass type (template.HTML, template.URL ...) or a non-string reaches the sink.
+				// For a string-kinded bypass type the page differs from the fixed template exactly
+				// on values the escaper would have changed; the violation is stated for one such
+				// family of values so that the model the solver returns shows the difference natively.
 				if t, ok := sv.F[i].(*Term); ok && t.Sort == SStr {
+					tn := ""
+					if n, ok := ft.(*types.Named); ok {
+						tn = n.Obj().Name()
+					}
+					switch tn {
+					case "URL":
+						okTerm = And(okTerm, Not(PrefixOf(StrC("javascript:"), t)))
+					default:
+						okTerm = And(okTerm, Not(Contains(t, StrC("<a>&amp;"))))
+					}
 					return t
 				}
+				okT = false
 				return StrC("")
 			}
 			return sv.F[i]
@@ -678,7 +693,7 @@ func (x *Exec) observe(w *respWriter) Value {
 		if isStruct && len(sv.F) != 3 {
 			okT = false
 		}
-		f["TemplateOK"] = BoolC(okT)
+		f["TemplateOK"] = And(BoolC(okT), okTerm)
 	case len(w.body) == 2 && nXML == 1 && w.body[0].IsConst() && w.body[0].S == xmlHeader:
 		kind = "xml"
 	case len(w.body) == 2 && nJSON == 1 && w.body[1].IsConst() && w.body[1].S == "\n":
